@@ -26,9 +26,22 @@ public:
         if (this->count.size() != array.dataExtent().size()) {
             throw IncompatibleDimensions("DataView count dimensionality does not match dimensionality of data", "nix::DataView");
         }
-        if (this->offset + this->count > array.dataExtent()) {
+        if (this->offset + this->count > array.dataExtent() || exceeds(this->offset, this->count, array.dataExtent())) {
             throw OutOfBounds("Trying to create DataView which is out of bounds");
         }
+    }
+
+    /**
+     * @brief True if a[i] + b[i] > limit[i] for some i, evaluated so that the sum cannot wrap around.
+     *        All three must have the same number of dimensions.
+     */
+    static bool exceeds(const NDSize &a, const NDSize &b, const NDSize &limit) {
+        for (size_t i = 0; i < limit.size(); i++) {
+            if (a[i] > limit[i] || b[i] > limit[i] - a[i]) {
+                return true;
+            }
+        }
+        return false;
     }
 
     // the DataIO interface implementation
